@@ -22,6 +22,72 @@ DICT_MUTATORS = ['__setitem__', '__delitem__', 'clear', 'pop', 'popitem',
                  'setdefault', 'update', '__ior__']
 
 
+def _regen_members(ctx):
+    """Regenerating member -> truth value (its __bool__ is bool(value))."""
+    ci = ctx.repo.cls('bfg9000.build_inputs:Regenerating')
+    out = {}
+    for st in ci.node.body:
+        if isinstance(st, ast.Assign) and len(st.targets) == 1 and \
+                isinstance(st.targets[0], ast.Name) and isinstance(
+                    st.value, ast.Constant):
+            out[st.targets[0].id] = bool(st.value.value)
+    Q.require(len(out) >= 3, 'Regenerating members not found')
+    return out
+
+
+def _eval_regen(t, name, m, members):
+    """Value of test `t` when parameter `name` is Regenerating.<m>; None if
+    the test is not a function of that parameter alone."""
+    def member(x):
+        if isinstance(x, ast.Attribute) and x.attr in members and \
+                unparse(x.value).endswith('Regenerating'):
+            return x.attr
+        return None
+
+    def is_p(x):
+        return (isinstance(x, ast.Name) and x.id == name) or (
+            isinstance(x, ast.Attribute) and x.attr == name)
+    if is_p(t):
+        return members[m]
+    if isinstance(t, ast.UnaryOp) and isinstance(t.op, ast.Not):
+        v = _eval_regen(t.operand, name, m, members)
+        return None if v is None else not v
+    if isinstance(t, ast.BoolOp):
+        vs = [_eval_regen(v, name, m, members) for v in t.values]
+        if isinstance(t.op, ast.And):
+            if any(v is False for v in vs):
+                return False
+            return None if any(v is None for v in vs) else True
+        if any(v is True for v in vs):
+            return True
+        return None if any(v is None for v in vs) else False
+    if isinstance(t, ast.Compare) and len(t.ops) == 1:
+        l, r, op = t.left, t.comparators[0], t.ops[0]
+        if is_p(r) and member(l):
+            l, r = r, l
+        if is_p(l):
+            if isinstance(op, (ast.Is, ast.Eq)) and member(r):
+                return member(r) == m
+            if isinstance(op, (ast.IsNot, ast.NotEq)) and member(r):
+                return member(r) != m
+            if isinstance(op, (ast.In, ast.NotIn)) and isinstance(
+                    r, (ast.Tuple, ast.List, ast.Set)) and all(
+                        member(x) for x in r.elts):
+                v = m in [member(x) for x in r.elts]
+                return v if isinstance(op, ast.In) else not v
+    return None
+
+
+def _reached(F, node, fn, name, m, members):
+    """Can `node` execute when parameter `name` is Regenerating.<m>?
+    (guards that are not functions of the parameter count as possible)"""
+    for t, pos in F.guards_pol(node, fn):
+        v = _eval_regen(t, name, m, members)
+        if v is not None and v != pos:
+            return False
+    return True
+
+
 def _facts(ctx):
     f = getattr(ctx, '_facts', None)
     if f is None:
@@ -791,6 +857,27 @@ def load_only(ctx):
            'variables are not reset to their initial values before the '
            'toolchain file is replayed (or the saved toolchain path is '
            'overwritten)')
+    # finite-domain evaluation over the members of Regenerating: the reset
+    # happens for every member that is true (a lazy regeneration replays
+    # the toolchain file as well), the path store only for the false one
+    members = _regen_members(ctx)
+    bad = []
+    for m, truthy in sorted(members.items()):
+        hit = any(_reached(F, e.call, e.fn, 'regenerating', m, members)
+                  for e in rl if e.fn is lt)
+        if any(e.fn is not lt for e in rl):
+            hit = hit or truthy     # reset moved into a helper: not evaluated
+        if truthy and not hit:
+            bad.append('no reset for Regenerating.' + m)
+        if not truthy and hit:
+            bad.append('reset on a fresh configure')
+        st = any(_reached(F, n, lt, 'regenerating', m, members)
+                 for n in setp)
+        if truthy and st:
+            bad.append('saved toolchain path overwritten for Regenerating.'
+                       + m)
+    ctx.ob(R, 'load_toolchain|reload-for-every-regenerating-member',
+           not bad, lt.node, '; '.join(bad))
     g = F.cfg(lt)
     ok = bool(rl) and bool(ex) and not any(
         g.reaches(g.stmt_of(x.call), g.stmt_of(r.call))
